@@ -64,6 +64,14 @@ type run struct {
 	c    *core.Ctx
 	cnt  map[string]*int64
 	nsmp map[string]int
+	src  string // which part of the workload is running (for the violation counters)
+}
+
+// viol reports a violation and counts it per part of the workload and per site,
+// so that the evidence of a firing run shows which cases caught it.
+func (r *run) viol(site, facet, class, witness, detail string) {
+	r.bump("violations-raised-in:" + r.src + ":" + site)
+	r.c.Violate(site, facet, class, witness, detail)
 }
 
 // sampleOK rations the evidence samples between the kinds of case.
@@ -111,7 +119,7 @@ func pairText(A, B *m.TNode, a, b cty.Type) string {
 func (r *run) buildCty(T *m.TNode) (ty cty.Type, ok bool) {
 	o := core.Guard(func() { ty = T.Cty() })
 	if o.Panicked {
-		r.c.Violate("type constructors", "panic: "+core.PanicClass(o.PanicMsg), "", T.String(), o.PanicMsg+"\n"+o.Stack)
+		r.viol("type constructors", "panic: "+core.PanicClass(o.PanicMsg), "", T.String(), o.PanicMsg+"\n"+o.Stack)
 		return cty.NilType, false
 	}
 	return ty, true
@@ -129,7 +137,7 @@ func (r *run) checkEquals(A, B *m.TNode, a, b cty.Type, tag string) (got, ok boo
 	o := core.Guard(func() { got = a.Equals(b) })
 	c.Eval(1)
 	if o.Panicked {
-		c.Violate("Type.Equals", "panic: "+core.PanicClass(o.PanicMsg), "", pairText(A, B, a, b), o.PanicMsg+"\n"+o.Stack)
+		r.viol("Type.Equals", "panic: "+core.PanicClass(o.PanicMsg), "", pairText(A, B, a, b), o.PanicMsg+"\n"+o.Stack)
 		return false, false
 	}
 	if want {
@@ -142,7 +150,7 @@ func (r *run) checkEquals(A, B *m.TNode, a, b cty.Type, tag string) (got, ok boo
 		if want {
 			facet = "Equals answers false for structurally identical types"
 		}
-		c.Violate("Type.Equals", facet, "first-difference:"+orNone(diffKind(A, B)), pairText(A, B, a, b),
+		r.viol("Type.Equals", facet, "first-difference:"+orNone(diffKind(A, B)), pairText(A, B, a, b),
 			fmt.Sprintf("a.Equals(b) = %v, model says %v (%s)", got, want, tag))
 	}
 	return got, true
@@ -258,7 +266,7 @@ func (r *run) checkConformanceLiteral(T, C *m.TNode, t, cn cty.Type, conforms bo
 		r.bump("oracle:TestConformance==Equals(after-substitution-and-stripping):different")
 	}
 	if o.Panicked || eq != conforms {
-		c.Violate("Type.TestConformance", "conformance disagrees with Equals after substituting the placeholders and stripping the annotations", "model-reason:"+orNone(confDiff(T, C)),
+		r.viol("Type.TestConformance", "conformance disagrees with Equals after substituting the placeholders and stripping the annotations", "model-reason:"+orNone(confDiff(T, C)),
 			"given "+pairText(T, C, t, cn)+" (b is the constraint)\nconstraint after substitution: "+S.String(),
 			fmt.Sprintf("TestConformance conforms=%v, strip(given).Equals(strip(substituted constraint))=%v (%s) %s", conforms, eq, tag, o.PanicMsg))
 	}
@@ -273,7 +281,7 @@ func (r *run) checkConformance(T, C *m.TNode, t, cn cty.Type, tag string) {
 	o := core.Guard(func() { errs = t.TestConformance(cn) })
 	c.Eval(1)
 	if o.Panicked {
-		c.Violate("Type.TestConformance", "panic: "+core.PanicClass(o.PanicMsg), "", pairText(T, C, t, cn), o.PanicMsg+"\n"+o.Stack)
+		r.viol("Type.TestConformance", "panic: "+core.PanicClass(o.PanicMsg), "", pairText(T, C, t, cn), o.PanicMsg+"\n"+o.Stack)
 		return
 	}
 	got := len(errs) == 0
@@ -293,13 +301,13 @@ func (r *run) checkConformance(T, C *m.TNode, t, cn cty.Type, tag string) {
 		if want {
 			facet = "conforming type reported errors"
 		}
-		c.Violate("Type.TestConformance", facet, "model-reason:"+orNone(confDiff(T, C)), "given "+pairText(T, C, t, cn)+" (b is the constraint)",
+		r.viol("Type.TestConformance", facet, "model-reason:"+orNone(confDiff(T, C)), "given "+pairText(T, C, t, cn)+" (b is the constraint)",
 			fmt.Sprintf("TestConformance returned %d error(s) %v, model.Conforms = %v (%s)", len(errs), errs, want, tag))
 		return
 	}
 	for _, e := range errs {
 		if e == nil {
-			c.Violate("Type.TestConformance", "a reported error is nil", "", "given "+pairText(T, C, t, cn), fmt.Sprintf("%v", errs))
+			r.viol("Type.TestConformance", "a reported error is nil", "", "given "+pairText(T, C, t, cn), fmt.Sprintf("%v", errs))
 			break
 		}
 	}
@@ -323,7 +331,7 @@ func (r *run) checkHasDynamic(T *m.TNode, ty cty.Type) {
 	o := core.Guard(func() { got = ty.HasDynamicTypes() })
 	c.Eval(1)
 	if o.Panicked {
-		c.Violate("Type.HasDynamicTypes", "panic: "+core.PanicClass(o.PanicMsg), "", tyText(T, ty), o.PanicMsg+"\n"+o.Stack)
+		r.viol("Type.HasDynamicTypes", "panic: "+core.PanicClass(o.PanicMsg), "", tyText(T, ty), o.PanicMsg+"\n"+o.Stack)
 		return
 	}
 	if want {
@@ -340,7 +348,7 @@ func (r *run) checkHasDynamic(T *m.TNode, ty cty.Type) {
 		if want {
 			facet = "HasDynamicTypes false although a placeholder occurs inside"
 		}
-		c.Violate("Type.HasDynamicTypes", facet, "top-kind:"+T.K.String(), tyText(T, ty), fmt.Sprintf("got %v, model %v", got, want))
+		r.viol("Type.HasDynamicTypes", facet, "top-kind:"+T.K.String(), tyText(T, ty), fmt.Sprintf("got %v, model %v", got, want))
 	}
 }
 
@@ -353,12 +361,12 @@ func (r *run) checkStrip(T *m.TNode, ty cty.Type) {
 	o := core.Guard(func() { s1 = ty.WithoutOptionalAttributesDeep() })
 	c.Eval(1)
 	if o.Panicked {
-		c.Violate(site, "panic: "+core.PanicClass(o.PanicMsg), "", tyText(T, ty), o.PanicMsg+"\n"+o.Stack)
+		r.viol(site, "panic: "+core.PanicClass(o.PanicMsg), "", tyText(T, ty), o.PanicMsg+"\n"+o.Stack)
 		return
 	}
 	var S1 *m.TNode
 	if o := core.Guard(func() { S1 = m.TNodeOf(s1) }); o.Panicked {
-		c.Violate(site, "result cannot be read back through the type accessors", "", tyText(T, ty), fmt.Sprintf("result %#v: %s", s1, o.PanicMsg))
+		r.viol(site, "result cannot be read back through the type accessors", "", tyText(T, ty), fmt.Sprintf("result %#v: %s", s1, o.PanicMsg))
 		return
 	}
 	hadOpt := m.HasOptional(T)
@@ -368,11 +376,11 @@ func (r *run) checkStrip(T *m.TNode, ty cty.Type) {
 		r.bump("oracle:strip:type-without-annotations")
 	}
 	if m.HasOptional(S1) {
-		c.Violate(site, "an optional-attribute annotation survives", "", tyText(T, ty), fmt.Sprintf("result %s = %#v", S1, s1))
+		r.viol(site, "an optional-attribute annotation survives", "", tyText(T, ty), fmt.Sprintf("result %s = %#v", S1, s1))
 	}
 	want := m.StripOptional(T)
 	if !m.TypeEq(S1, want) {
-		c.Violate(site, "result differs from the input in more than the annotations", "first-difference:"+orNone(diffKind(S1, want)), tyText(T, ty),
+		r.viol(site, "result differs from the input in more than the annotations", "first-difference:"+orNone(diffKind(S1, want)), tyText(T, ty),
 			fmt.Sprintf("result %s = %#v, expected %s", S1, s1, want))
 	}
 	if !hadOpt {
@@ -382,7 +390,7 @@ func (r *run) checkStrip(T *m.TNode, ty cty.Type) {
 		c.Eval(2)
 		r.bump("oracle:strip:identity-on-annotation-free-type")
 		if o.Panicked || !eq {
-			c.Violate(site, "annotation-free type not Equal to its stripped form", "", tyText(T, ty), fmt.Sprintf("result %#v %s", s1, o.PanicMsg))
+			r.viol(site, "annotation-free type not Equal to its stripped form", "", tyText(T, ty), fmt.Sprintf("result %#v %s", s1, o.PanicMsg))
 		}
 	}
 	// idempotence
@@ -390,7 +398,7 @@ func (r *run) checkStrip(T *m.TNode, ty cty.Type) {
 	o = core.Guard(func() { s2 = s1.WithoutOptionalAttributesDeep() })
 	c.Eval(1)
 	if o.Panicked {
-		c.Violate(site, "panic: "+core.PanicClass(o.PanicMsg), "second application", tyText(T, ty), o.PanicMsg+"\n"+o.Stack)
+		r.viol(site, "panic: "+core.PanicClass(o.PanicMsg), "second application", tyText(T, ty), o.PanicMsg+"\n"+o.Stack)
 		return
 	}
 	var S2 *m.TNode
@@ -399,7 +407,7 @@ func (r *run) checkStrip(T *m.TNode, ty cty.Type) {
 	c.Eval(2)
 	r.bump("oracle:strip:idempotent")
 	if o.Panicked || !m.TypeEq(S1, S2) || !eq12 {
-		c.Violate(site, "not idempotent", "", tyText(T, ty), fmt.Sprintf("once %#v, twice %#v (Equals=%v) %s", s1, s2, eq12, o.PanicMsg))
+		r.viol(site, "not idempotent", "", tyText(T, ty), fmt.Sprintf("once %#v, twice %#v (Equals=%v) %s", s1, s2, eq12, o.PanicMsg))
 	}
 	// the stripped type and the original conform to each other (annotations are disregarded)
 	r.checkConformance(T, S1, ty, s1, "type vs its stripped form")
@@ -435,11 +443,11 @@ func (r *run) checkJSON(T *m.TNode, ty cty.Type, full bool) {
 		return
 	}
 	if o.Panicked {
-		c.Violate("Type.MarshalJSON", "panic: "+core.PanicClass(o.PanicMsg), "", tyText(T, ty), o.PanicMsg+"\n"+o.Stack)
+		r.viol("Type.MarshalJSON", "panic: "+core.PanicClass(o.PanicMsg), "", tyText(T, ty), o.PanicMsg+"\n"+o.Stack)
 		return
 	}
 	if err != nil {
-		c.Violate("Type.MarshalJSON", "capsule-free type failed to marshal", "top-kind:"+T.K.String(), tyText(T, ty), err.Error())
+		r.viol("Type.MarshalJSON", "capsule-free type failed to marshal", "top-kind:"+T.K.String(), tyText(T, ty), err.Error())
 		return
 	}
 	if m.HasOptional(T) {
@@ -448,7 +456,7 @@ func (r *run) checkJSON(T *m.TNode, ty cty.Type, full bool) {
 		r.bump("oracle:json:round-trip:no-optional-attributes")
 	}
 	if !stdjson.Valid(buf) {
-		c.Violate("Type.MarshalJSON", "output is not valid JSON", "", tyText(T, ty), string(buf))
+		r.viol("Type.MarshalJSON", "output is not valid JSON", "", tyText(T, ty), string(buf))
 		return
 	}
 	r.roundTripBack("Type.UnmarshalJSON", T, ty, buf, func(b []byte) (cty.Type, error) {
@@ -464,7 +472,7 @@ func (r *run) checkJSON(T *m.TNode, ty cty.Type, full bool) {
 	o = core.Guard(func() { buf2, err = ctyjson.MarshalType(ty) })
 	c.Eval(1)
 	if o.Panicked || err != nil {
-		c.Violate("json.MarshalType", "capsule-free type failed to marshal", "", tyText(T, ty), fmt.Sprintf("err=%v %s", err, o.PanicMsg))
+		r.viol("json.MarshalType", "capsule-free type failed to marshal", "", tyText(T, ty), fmt.Sprintf("err=%v %s", err, o.PanicMsg))
 		return
 	}
 	if bytes.Equal(buf, buf2) { // not demanded, only recorded
@@ -478,7 +486,7 @@ func (r *run) checkJSON(T *m.TNode, ty cty.Type, full bool) {
 	o = core.Guard(func() { buf3, err = stdjson.Marshal(ty) })
 	c.Eval(1)
 	if o.Panicked || err != nil {
-		c.Violate("encoding/json.Marshal(Type)", "capsule-free type failed to marshal", "", tyText(T, ty), fmt.Sprintf("err=%v %s", err, o.PanicMsg))
+		r.viol("encoding/json.Marshal(Type)", "capsule-free type failed to marshal", "", tyText(T, ty), fmt.Sprintf("err=%v %s", err, o.PanicMsg))
 		return
 	}
 	r.bump("oracle:json:round-trip:via-encoding/json")
@@ -496,20 +504,20 @@ func (r *run) roundTripBack(site string, T *m.TNode, ty cty.Type, buf []byte, de
 	o := core.Guard(func() { back, err = dec(buf) })
 	c.Eval(1)
 	if o.Panicked {
-		c.Violate(site, "panic: "+core.PanicClass(o.PanicMsg), "decoding the library's own output", tyText(T, ty)+"\njson: "+string(buf), o.PanicMsg+"\n"+o.Stack)
+		r.viol(site, "panic: "+core.PanicClass(o.PanicMsg), "decoding the library's own output", tyText(T, ty)+"\njson: "+string(buf), o.PanicMsg+"\n"+o.Stack)
 		return
 	}
 	if err != nil {
-		c.Violate(site, "the library's own output is rejected", "top-kind:"+T.K.String(), tyText(T, ty)+"\njson: "+string(buf), err.Error())
+		r.viol(site, "the library's own output is rejected", "top-kind:"+T.K.String(), tyText(T, ty)+"\njson: "+string(buf), err.Error())
 		return
 	}
 	var B *m.TNode
 	if o := core.Guard(func() { B = m.TNodeOf(back) }); o.Panicked {
-		c.Violate(site, "decoded type cannot be read back through the type accessors", "", tyText(T, ty)+"\njson: "+string(buf), fmt.Sprintf("%#v: %s", back, o.PanicMsg))
+		r.viol(site, "decoded type cannot be read back through the type accessors", "", tyText(T, ty)+"\njson: "+string(buf), fmt.Sprintf("%#v: %s", back, o.PanicMsg))
 		return
 	}
 	if !m.TypeEq(B, T) {
-		c.Violate(site, "round trip changed the type", "first-difference:"+orNone(diffKind(T, B)), tyText(T, ty)+"\njson: "+string(buf),
+		r.viol(site, "round trip changed the type", "first-difference:"+orNone(diffKind(T, B)), tyText(T, ty)+"\njson: "+string(buf),
 			fmt.Sprintf("came back as %s = %#v", B, back))
 		return
 	}
@@ -517,19 +525,18 @@ func (r *run) roundTripBack(site string, T *m.TNode, ty cty.Type, buf []byte, de
 	o = core.Guard(func() { eq = back.Equals(ty) && ty.Equals(back) })
 	c.Eval(2)
 	if o.Panicked || !eq {
-		c.Violate(site, "round-tripped type is not Equal to the original", "", tyText(T, ty)+"\njson: "+string(buf), fmt.Sprintf("came back as %#v %s", back, o.PanicMsg))
+		r.viol(site, "round-tripped type is not Equal to the original", "", tyText(T, ty)+"\njson: "+string(buf), fmt.Sprintf("came back as %#v %s", back, o.PanicMsg))
 	}
 }
 
 // checkSelf: the unary oracles plus the reflexive cases of the binary ones
 // (against an independently built copy of the same tree).
 func (r *run) checkSelf(T *m.TNode, ty cty.Type, full bool) {
-	c := r.c
 	// harness self-check: the accessors give back the tree the type was built from
 	var R *m.TNode
 	o := core.Guard(func() { R = m.TNodeOf(ty) })
 	if o.Panicked || !m.TypeEq(R, T) {
-		c.Violate("type constructors+accessors", "type read back through its accessors differs from the tree it was built from", "", tyText(T, ty), fmt.Sprintf("read back %v %s", R, o.PanicMsg))
+		r.viol("type constructors+accessors", "type read back through its accessors differs from the tree it was built from", "", tyText(T, ty), fmt.Sprintf("read back %v %s", R, o.PanicMsg))
 		return
 	}
 	r.bump("selfcheck:accessors-return-the-constructed-tree")
@@ -575,13 +582,13 @@ func (r *run) checkLaws(Ts []*m.TNode, tys []cty.Type, tag string) {
 	for i := 0; i < n; i++ {
 		r.bump("law:reflexive")
 		if !e[i][i] {
-			c.Violate("Type.Equals", "not reflexive", "top-kind:"+Ts[i].K.String(), witness(i), "t.Equals(t) = false")
+			r.viol("Type.Equals", "not reflexive", "top-kind:"+Ts[i].K.String(), witness(i), "t.Equals(t) = false")
 		}
 		for j := 0; j < n; j++ {
 			if i < j {
 				r.bump("law:symmetric")
 				if e[i][j] != e[j][i] {
-					c.Violate("Type.Equals", "not symmetric", "first-difference:"+orNone(diffKind(Ts[i], Ts[j])), witness(i, j),
+					r.viol("Type.Equals", "not symmetric", "first-difference:"+orNone(diffKind(Ts[i], Ts[j])), witness(i, j),
 						fmt.Sprintf("t%d.Equals(t%d)=%v but t%d.Equals(t%d)=%v", i, j, e[i][j], j, i, e[j][i]))
 				}
 			}
@@ -593,7 +600,7 @@ func (r *run) checkLaws(Ts []*m.TNode, tys []cty.Type, tag string) {
 						r.bump("law:transitive:premise-true-degenerate")
 					}
 					if !e[i][k] {
-						c.Violate("Type.Equals", "not transitive", "", witness(i, j, k), fmt.Sprintf("t%d=t%d and t%d=t%d but not t%d=t%d", i, j, j, k, i, k))
+						r.viol("Type.Equals", "not transitive", "", witness(i, j, k), fmt.Sprintf("t%d=t%d and t%d=t%d but not t%d=t%d", i, j, j, k, i, k))
 					}
 				} else {
 					r.bump("law:transitive:premise-false")
@@ -625,7 +632,7 @@ func (r *run) checkLaws(Ts []*m.TNode, tys []cty.Type, tag string) {
 				}
 			}
 			if bad {
-				c.Violate("Type.Equals", "Equal types are told apart by HasDynamicTypes/TestConformance", "", witness(i, j),
+				r.viol("Type.Equals", "Equal types are told apart by HasDynamicTypes/TestConformance", "", witness(i, j),
 					fmt.Sprintf("HasDynamicTypes %v/%v conformance error counts %v / %v %s", hi, hj, ci, cj, o.PanicMsg))
 			}
 		}
@@ -637,10 +644,14 @@ func (r *run) checkLaws(Ts []*m.TNode, tys []cty.Type, tag string) {
 func (Driver) Run(c *core.Ctx) {
 	r := &run{c: c, cnt: map[string]*int64{}, nsmp: map[string]int{}}
 	defer r.flush()
+	r.src = "sampled-with-mutants"
 	r.sampled()
+	r.src = "enumerated-pairs-and-singles"
 	r.exhaustivePairs()
+	r.src = "enumerated-triples"
 	r.exhaustiveTriples()
 	if c.Batch == 0 {
+		r.src = "corpus"
 		r.corpus()
 	}
 }
@@ -659,14 +670,28 @@ func (r *run) sampled() {
 			depth = 3
 		}
 		// prefer deep origins: redraw (a bounded number of times) while the tree is shallower than 3
-		T := gen.Type(rng, depth, typeOpts)
-		for try := 0; try < 8 && T.Depth() < 3; try++ {
-			if try%2 == 0 {
-				T = gen.Type(rng, depth, typeOpts)
-			} else {
-				T = gen.ObjectType(rng, depth, typeOpts)
+		var T *m.TNode
+		if rng.Chance(1, 4) {
+			// wide shapes: tuples / objects of up to 6 members, half of the attributes optional
+			budget := 40
+			T = wideType(rng, depth, &budget)
+			for try := 0; try < 8 && T.Depth() < 3; try++ {
+				budget = 40
+				T = wideType(rng, depth, &budget)
 			}
+			r.bump("sampled:origin-drawn-wide")
+		} else {
+			T = gen.Type(rng, depth, typeOpts)
+			for try := 0; try < 8 && T.Depth() < 3; try++ {
+				if try%2 == 0 {
+					T = gen.Type(rng, depth, typeOpts)
+				} else {
+					T = gen.ObjectType(rng, depth, typeOpts)
+				}
+			}
+			r.bump("sampled:origin-drawn-by-gen.Type")
 		}
+		r.countShape("sampled:origin", T)
 		c.Begin(i, func() string { return "sampled type with all single-position mutants: " + T.String() })
 		ty, ok := r.buildCty(T)
 		if !ok {
